@@ -235,6 +235,11 @@ func (t *Tasks) UnmarshalYAML(node *yaml.Node) error {
 				Column: keyNode.Column,
 			}
 
+			// A task that is defined twice would silently replace the first one
+			if _, ok := t.Get(keyNode.Value); ok {
+				return errors.NewTaskfileDecodeError(nil, keyNode).WithMessage("task %q is defined more than once", keyNode.Value)
+			}
+
 			// Add the task to the ordered map
 			t.Set(keyNode.Value, &v)
 		}
